@@ -48,6 +48,9 @@ class GenRule(TermRule):
             v = None
             if name in self.ctx.model.assigns.get(it.module, {}) or name in self.ctx.model.imports.get(it.module, {}):
                 return tv(f"g:{name}", none=False)
+            fq = f"{it.module}.{name}"
+            if fq in self.ctx.model.funcs and self.ctx.model.funcs[fq].cls is None:
+                return tv(f"fn:{fq}", none=False, truth=True)
             return None
         if isinstance(v, Regex):
             return tv(f"rx:{name}", none=False, truth=True)
@@ -260,4 +263,29 @@ def private_helpers(m, module, cls=None, exclude=()):
             out.add(fi.qual)
         elif cls is not None and fi.clsq == cls and fi.name.startswith("_") and not fi.name.startswith("__") and fi.name not in exclude:
             out.add(fi.qual)
+    return frozenset(out)
+
+
+def helper_closure(m, roots, stop=()):
+    """Quals of `roots` plus every private method of the same class / private function of the same module they reach
+    through direct calls (`self._x()`, `cls._x()`, `_x()`), transitively.  Used so that extracting a private helper out of
+    an inlined function does not turn the extracted part into an opaque call."""
+    out, todo = set(), list(roots)
+    while todo:
+        fi = todo.pop()
+        if fi.qual in out:
+            continue
+        out.add(fi.qual)
+        for n in ast.walk(fi.node):
+            if not isinstance(n, ast.Call):
+                continue
+            f = n.func
+            callee = None
+            if isinstance(f, ast.Attribute) and isinstance(f.value, ast.Name) and f.value.id in ("self", "cls") and fi.cls is not None:
+                if f.attr.startswith("_") and not f.attr.startswith("__") and f.attr not in stop:
+                    callee = m.find_method(fi.clsq, f.attr)
+            elif isinstance(f, ast.Name) and f.id.startswith("_") and f.id not in stop:
+                callee = next((g for g in m.repo_funcs() if g.module == fi.module and g.cls is None and g.name == f.id), None)
+            if callee is not None and callee.qual not in out and callee.qual.startswith("urllib3."):
+                todo.append(callee)
     return frozenset(out)
